@@ -215,6 +215,7 @@ Proof.
         -- rewrite Ho, Hc. reflexivity.
         -- match goal with H : PDial _ _ _ = PDial _ _ _ |- _ => injection H as <- <- <- end.
            split; [lia|]. split; [assumption|]. intros x Hx. apply Hincl. now right.
+        -- match goal with H : Some _ = Some _ |- _ => injection H as <- end. lia.
       * apply after_connect_inv; ss; auto.
         -- constructor; ss; auto.
         -- apply Hcont. apply nth_In. cbn [length]. lia.
@@ -297,3 +298,110 @@ Qed.
 
 Lemma attempt_inv s : Ctl s -> Inv (attempt s).
 Proof. intros HC. apply attempt_loop_inv; [exact HC|apply need_lt_fuel]. Qed.
+
+(* ---------- control events and timers preserve the invariant ---------- *)
+Ltac dinv H :=
+  let Ho := fresh "Io" in let Hc := fresh "Ic" in let Hp := fresh "Ip" in let Ht := fresh "It" in
+  let Hw := fresh "Iw" in let Hl := fresh "Il" in let Hs := fresh "Is" in let Hd := fresh "Id" in
+  let Hwd := fresh "Iwd" in let Hf := fresh "If" in let Hr := fresh "Ir" in let Hpt := fresh "Ipt" in
+  destruct H as [Ho Hc Hp Ht Hw Hl Hs Hd Hwd Hf Hr Hpt].
+
+Lemma inv_cur_none s : Inv s -> connected s = false -> cur s = None.
+Proof.
+  intros H Hn. dinv H. unfold connected in Hn. destruct (cur s) as [c|] eqn:E; [|reflexivity].
+  destruct (Ic c eq_refl) as [Hs _]. congruence.
+Qed.
+
+Lemma start_from s :
+  opn s = [] -> cur s = None -> running s = false -> ntasks s = 0 -> wait_ok s ->
+  fuel_out s = false -> closing s = false -> Inv (start_connector s).
+Proof.
+  intros Ho Hc Hr Ht Hw Hf Hcl. unfold start_connector, connected. rewrite Hr, Hc. cbn [orb].
+  apply attempt_inv. constructor; ss; auto; try (rewrite Ht; reflexivity).
+Qed.
+
+Lemma running_ph s : running s = false ->
+  ph s = PNone \/ ph s = PDoneOk \/ ph s = PDoneAuth \/ ph s = PCancelled.
+Proof. unfold running. destruct (ph s); intros; try discriminate; auto. Qed.
+
+(* a caller starts waiting / _start_reconnecting: closing is reset, a connector is started if needed *)
+Lemma restart_inv s ws :
+  Inv s -> connected s = false ->
+  (forall w d, In (w, d) ws -> (now s <= d)%N /\ (d <= now s + TEN_S)%N) ->
+  Inv (start_connector (set_closing false (set_waiters (waiters s ++ ws) s))).
+Proof.
+  intros H Hn Hws. pose proof (inv_cur_none s H Hn) as Hcur. dinv H.
+  assert (Hwok : wait_ok (set_closing false (set_waiters (waiters s ++ ws) s))).
+  { unfold wait_ok. ss. intros w d Hin. apply in_app_or in Hin. destruct Hin as [Hin|Hin]; [exact (Iwd w d Hin)|exact (Hws w d Hin)]. }
+  destruct (running s) eqn:Er.
+  - unfold start_connector. unfold running in *. ss. rewrite Er. cbn [orb].
+    inv_tac; eauto; try (rewrite Er; assumption).
+  - apply start_from; ss; auto;
+      try (rewrite Io; unfold cur_list; now rewrite Hcur); try (rewrite It, Er; reflexivity).
+Qed.
+
+Lemma attempt_from_sleep s w : Inv s -> ph s = PSleep w -> Inv (attempt s).
+Proof.
+  intros H Hp. assert (Hrun : running s = true) by (unfold running; now rewrite Hp).
+  assert (Hcur : cur s = None).
+  { dinv H. destruct (cur s) as [c|] eqn:E; [|reflexivity].
+    destruct (Ic c eq_refl) as [_ [Hx|[u Hx]]]; congruence. }
+  dinv H. apply attempt_inv. constructor; auto.
+  - rewrite Io. unfold cur_list. now rewrite Hcur.
+  - rewrite It, Hrun. reflexivity.
+Qed.
+
+Lemma set_waiters_id s : set_waiters (waiters s ++ []) s = s.
+Proof. rewrite app_nil_r. destruct s; reflexivity. Qed.
+
+Lemma start_reconnecting_inv s : Inv s -> Inv (start_reconnecting s).
+Proof.
+  intros H. unfold start_reconnecting. destruct (connected s) eqn:Ec; [exact H|].
+  rewrite <- (set_waiters_id s) at 1. apply restart_inv; [exact H|exact Ec|intros w d []].
+Qed.
+
+Lemma reconnect_soon_inv s : Inv s -> Inv (reconnect_soon s).
+Proof.
+  intros H. unfold reconnect_soon. destruct (ph s) eqn:Ep; try (now apply start_reconnecting_inv).
+  eapply attempt_from_sleep; eauto.
+Qed.
+
+Ltac fin :=
+  inv_tac; try congruence; try discriminate; eauto;
+  try (match goal with H : In _ [] |- _ => destruct H end).
+
+Ltac fin2 :=
+  ss; try congruence; try discriminate; eauto; try symmetry; eauto;
+  try (match goal with H : In _ [] |- _ => destruct H end).
+
+Lemma inv_cur_ph s c : Inv s -> cur s = Some c ->
+  opn s = [c] /\ secure s = true /\ (ph s = PDoneOk \/ exists u, ph s = PPost c u).
+Proof.
+  intros H Hc. dinv H. split; [rewrite Io; unfold cur_list; now rewrite Hc|]. now apply Ic.
+Qed.
+
+Lemma inv_cur_none_open s : Inv s -> cur s = None -> opn s = [].
+Proof. intros H Hc. dinv H. rewrite Io. unfold cur_list. now rewrite Hc. Qed.
+
+Lemma do_close_inv s : Inv s -> Inv (do_close s) /\ opn (do_close s) = [] /\ closing (do_close s) = true.
+Proof.
+  intros H. destruct (cur s) as [c|] eqn:Ecur.
+  - destruct (inv_cur_ph s c H Ecur) as [Ho [Hs [Hp|[u Hp]]]]; dinv H.
+    + unfold do_close, stop_connector, running. ss. rewrite Hp.
+      unfold drop_transport. ss. rewrite Ecur, Ho. cbn [mem_nat]. rewrite Nat.eqb_refl. ss.
+      rewrite remove_nat_single. split; [|split; reflexivity].
+      unfold running in *. rewrite Hp in *. fin; rewrite ?Hp in *; fin2.
+    + unfold do_close, stop_connector, running. ss. rewrite Hp. ss.
+      rewrite Ho. cbn [mem_nat]. rewrite Nat.eqb_refl. ss. rewrite remove_nat_single.
+      unfold drop_transport. ss. rewrite Ecur. cbn [mem_nat]. ss.
+      unfold finish, resolve_waiters. ss. split; [|split; reflexivity].
+      unfold running in *. rewrite Hp in *. fin; rewrite ?Hp in *; fin2; try (rewrite It; reflexivity).
+  - pose proof (inv_cur_none_open s H Ecur) as Ho. dinv H.
+    destruct (ph s) eqn:Ep;
+      try (match goal with Hp : ph s = PPost ?c ?u |- _ => rewrite (Ip c u eq_refl) in Ecur; discriminate end);
+      unfold do_close, stop_connector, running, drop_transport, finish, resolve_waiters; ss; rewrite ?Ep; ss;
+      rewrite ?Ecur; ss; rewrite ?Ecur; ss;
+      (split; [|split; [assumption || reflexivity|reflexivity]]);
+      unfold running in *; rewrite ?Ep in *; fin; rewrite ?Ep in *; fin2; try (rewrite It; reflexivity).
+    all: try (destruct (waiters s); [reflexivity|exfalso; assert (false = true) by (apply Iw; discriminate); discriminate]).
+Qed.
